@@ -26,7 +26,7 @@ use crate::evidence::{fingerprint, CaseInfo};
 use crate::kernel;
 use calloop::generic::Generic;
 use calloop::timer::{TimeoutAction, Timer};
-use calloop::{EventLoop, Interest, LoopSignal, Mode, PostAction};
+use calloop::{EventLoop, EventSource, Interest, LoopSignal, Mode, PostAction};
 use proptest::prelude::*;
 use serde::{Deserialize, Serialize};
 use std::any::Any;
@@ -157,6 +157,11 @@ pub enum Idle {
     /// a quiet source with extra lifecycle events whose before_sleep takes 80 ms (it flushes something) in the
     /// measured dispatch: a timer deadline must still be honoured (the wait is computed after the hooks ran)
     SlowHook,
+    /// a composite source in the style of the book (every event is handed to both children, each filters by its own
+    /// token) over two children of kind 0 = ping, 1 = channel, 2 = executor, all handles kept. `used` bit 0 / 1: child
+    /// a / b gets one event; `late`: that event is produced right before the LAST warm-up dispatch, so that the
+    /// measured dispatch directly follows the one that delivered it (nothing is pending then either)
+    Comp { a: u8, b: u8, used: u8, late: bool },
 }
 
 #[derive(Serialize, Deserialize, Debug, Clone, Copy, Hash, PartialEq, Eq)]
@@ -244,6 +249,9 @@ impl Idle {
             Idle::GenericRead { used: true } => "idle:generic_read_used",
             Idle::DisabledPinged => "idle:disabled_pinged",
             Idle::SlowHook => "idle:slow_before_sleep_hook",
+            Idle::Comp { used: 0, .. } => "idle:composite_quiet",
+            Idle::Comp { late: false, .. } => "idle:composite_used",
+            Idle::Comp { late: true, .. } => "idle:composite_used_in_last_warmup",
         }
     }
 }
@@ -364,6 +372,7 @@ fn idle_strategy() -> impl Strategy<Value = Idle> {
         2 => any::<bool>().prop_map(|used| Idle::GenericRead { used }),
         2 => Just(Idle::DisabledPinged),
         1 => Just(Idle::SlowHook),
+        3 => (0u8..3, 0u8..3, 0u8..4, any::<bool>()).prop_map(|(a, b, used, late)| Idle::Comp { a, b, used, late }),
     ];
     prop_oneof![14 => live, 10 => dead]
 }
@@ -496,6 +505,77 @@ impl calloop::EventSource for SlowHookSource {
     fn before_handle_events(&mut self, _events: calloop::EventIterator<'_>) {}
 }
 
+/// Child of the composite idle source.
+enum PairChild {
+    Ping(calloop::ping::PingSource),
+    Chan(calloop::channel::Channel<u32>),
+    Exec(calloop::futures::Executor<u32>),
+}
+
+impl PairChild {
+    fn process(&mut self, r: calloop::Readiness, t: calloop::Token, hit: &mut bool) -> Result<PostAction, Box<dyn std::error::Error + Sync + Send>> {
+        Ok(match self {
+            PairChild::Ping(s) => s.process_events(r, t, |_, _| *hit = true)?,
+            PairChild::Chan(s) => s.process_events(r, t, |_, _| *hit = true)?,
+            PairChild::Exec(s) => s.process_events(r, t, |_, _| *hit = true)?,
+        })
+    }
+    fn reg(&mut self, p: &mut calloop::Poll, f: &mut calloop::TokenFactory, re: bool) -> calloop::Result<()> {
+        match (self, re) {
+            (PairChild::Ping(s), false) => s.register(p, f),
+            (PairChild::Chan(s), false) => s.register(p, f),
+            (PairChild::Exec(s), false) => s.register(p, f),
+            (PairChild::Ping(s), true) => s.reregister(p, f),
+            (PairChild::Chan(s), true) => s.reregister(p, f),
+            (PairChild::Exec(s), true) => s.reregister(p, f),
+        }
+    }
+    fn unreg(&mut self, p: &mut calloop::Poll) -> calloop::Result<()> {
+        match self {
+            PairChild::Ping(s) => s.unregister(p),
+            PairChild::Chan(s) => s.unregister(p),
+            PairChild::Exec(s) => s.unregister(p),
+        }
+    }
+}
+
+/// Composite source as the book writes them: every (readiness, token) goes to both children, registration in field order.
+struct PairSource {
+    a: PairChild,
+    b: PairChild,
+}
+
+impl calloop::EventSource for PairSource {
+    type Event = ();
+    type Metadata = ();
+    type Ret = ();
+    type Error = Box<dyn std::error::Error + Sync + Send>;
+    fn process_events<F>(&mut self, r: calloop::Readiness, t: calloop::Token, mut callback: F) -> Result<PostAction, Self::Error>
+    where
+        F: FnMut((), &mut ()),
+    {
+        let mut hit = false;
+        self.a.process(r, t, &mut hit)?;
+        self.b.process(r, t, &mut hit)?;
+        if hit {
+            callback((), &mut ());
+        }
+        Ok(PostAction::Continue)
+    }
+    fn register(&mut self, p: &mut calloop::Poll, f: &mut calloop::TokenFactory) -> calloop::Result<()> {
+        self.a.reg(p, f, false)?;
+        self.b.reg(p, f, false)
+    }
+    fn reregister(&mut self, p: &mut calloop::Poll, f: &mut calloop::TokenFactory) -> calloop::Result<()> {
+        self.a.reg(p, f, true)?;
+        self.b.reg(p, f, true)
+    }
+    fn unregister(&mut self, p: &mut calloop::Poll) -> calloop::Result<()> {
+        self.a.unreg(p)?;
+        self.b.unreg(p)
+    }
+}
+
 enum Action {
     Wakeup(LoopSignal),
     Ping(calloop::ping::Ping),
@@ -608,6 +688,8 @@ fn run_once(c: &Case) -> Obs {
     let mut keep: Vec<Box<dyn Any>> = Vec::new();
     // slow before_sleep hooks only take their time in the measured dispatch (not in warm-ups / the follow-up)
     let slow_flag = Arc::new(AtomicBool::new(false));
+    // events produced right before the last warm-up dispatch
+    let mut late_uses: Vec<Box<dyn FnOnce()>> = Vec::new();
 
     for (i, idle) in c.idle.iter().enumerate() {
         match *idle {
@@ -699,6 +781,54 @@ fn run_once(c: &Case) -> Obs {
                 h.insert_source(SlowHookSource { inner: s, slow: slow_flag.clone() }, move |_, _, t: &mut Trace| t.push(Src::Idle(i))).expect("insert slow-hook source");
                 keep.push(Box::new(p));
             }
+            Idle::Comp { a, b, used, late } => {
+                let mut mk = |kind: u8, use_it: bool, keep: &mut Vec<Box<dyn Any>>, late_uses: &mut Vec<Box<dyn FnOnce()>>| -> PairChild {
+                    match kind % 3 {
+                        0 => {
+                            let (p, s) = calloop::ping::make_ping().expect("make_ping");
+                            if use_it {
+                                let p2 = p.clone();
+                                late_uses.push(Box::new(move || p2.ping()));
+                            }
+                            keep.push(Box::new(p));
+                            PairChild::Ping(s)
+                        }
+                        1 => {
+                            let (tx, rx) = calloop::channel::channel::<u32>();
+                            if use_it {
+                                let t2 = tx.clone();
+                                late_uses.push(Box::new(move || {
+                                    let _ = t2.send(7);
+                                }));
+                            }
+                            keep.push(Box::new(tx));
+                            PairChild::Chan(rx)
+                        }
+                        _ => {
+                            let (ex, sched) = calloop::futures::executor::<u32>().expect("executor");
+                            if use_it {
+                                let s2 = sched.clone();
+                                late_uses.push(Box::new(move || {
+                                    let _ = s2.schedule(async { 7u32 });
+                                }));
+                            }
+                            keep.push(Box::new(sched));
+                            PairChild::Exec(ex)
+                        }
+                    }
+                };
+                let mut uses: Vec<Box<dyn FnOnce()>> = Vec::new();
+                let ca = mk(a, used & 1 != 0, &mut keep, &mut uses);
+                let cb = mk(b, used & 2 != 0, &mut keep, &mut uses);
+                h.insert_source(PairSource { a: ca, b: cb }, move |_, _, t: &mut Trace| t.push(Src::Idle(i))).expect("insert composite");
+                if late {
+                    late_uses.extend(uses);
+                } else {
+                    for u in uses {
+                        u();
+                    }
+                }
+            }
             Idle::DisabledPinged => {
                 let (p, s) = calloop::ping::make_ping().expect("make_ping");
                 let tok = h.insert_source(s, move |_, _, t: &mut Trace| t.push(Src::Idle(i))).expect("insert ping");
@@ -739,8 +869,13 @@ fn run_once(c: &Case) -> Obs {
     // warm-up: close markers, first stream polls, used-once deliveries are events; consume them
     let mut trace = Trace::default();
     let mut last_warmup_callbacks = 0;
-    for _ in 0..WARMUPS {
+    for k in 0..WARMUPS {
         trace.ev.clear();
+        if k + 1 == WARMUPS {
+            for u in late_uses.drain(..) {
+                u();
+            }
+        }
         el.dispatch(Some(Duration::ZERO), &mut trace).expect("warm-up dispatch");
         last_warmup_callbacks = trace.ev.len();
     }
@@ -1480,7 +1615,11 @@ pub fn run_case_with(known: &Known, case: &Case) -> CaseOutcome {
 // class cross product: timeout class x timer-relation class x idle-source kind
 // ------------------------------------------------------------------------------------------------
 
-const ALL_IDLE: [Idle; 19] = [
+const ALL_IDLE: [Idle; 23] = [
+    Idle::Comp { a: 1, b: 1, used: 1, late: false },
+    Idle::Comp { a: 1, b: 0, used: 2, late: true },
+    Idle::Comp { a: 2, b: 2, used: 2, late: false },
+    Idle::Comp { a: 0, b: 2, used: 1, late: true },
     Idle::SlowHook,
     Idle::PingLive { used: false },
     Idle::PingLive { used: true },
